@@ -1,8 +1,107 @@
-(* C02 — extrema are raw-signal extremes of narrowband half-waves.  (theorems added below as proved) *)
-From Coq Require Import List Arith Bool ZArith Floats.PrimFloat.
+(* C02 — extrema are raw-signal extremes of narrowband half-waves.
+   Model: Model/Extrema.v.  `pos` are the sign bits (filtered > 0) of the padded signal;
+   closed_halfwave pos k a b: bits a+1..b equal k and the half-wave is closed by crossings at a
+   and at b (bit a and bit b+1 are the other sign); the code's sample window for it is [a, b).
+   first_argmax raw a b x: x is the FIRST maximum of raw over [a, b).
+   The "first maximum" statements need the order on finite doubles (Flocq; classical-reals
+   axioms); the structural ones have no logical axioms. *)
+From Coq Require Import List Arith Bool ZArith Sorted Floats.PrimFloat.
 Import ListNotations.
-From ByC Require Import Base.Result Model.Extrema.
+From ByC Require Import Base.Result Base.ListAux Base.FloatFacts Model.Extrema.
+From ByC Require Import Proofs.Extrema.
 
-Theorem C02_placeholder_invalid_first_extrema_rejected : forall p t, trim FInvalid p t = Err EValue.
-Proof. reflexivity. Qed.
-Print Assumptions C02_placeholder_invalid_first_extrema_rejected.
+(* exactly one peak per closed positive half-wave, at the first maximum of the raw signal over
+   its window; nothing else is a peak *)
+Theorem C02_peaks_are_first_maxima_of_closed_halfwaves : forall pos sigp peaks troughs x,
+  raw_extrema pos sigp = Ok (peaks, troughs) -> length sigp = length pos ->
+  Forall (fun v => finite v = true) sigp ->
+  (In x peaks <-> exists a b, closed_halfwave pos true a b /\ first_argmax sigp a b x).
+Proof. exact raw_peaks_iff. Qed.
+Print Assumptions C02_peaks_are_first_maxima_of_closed_halfwaves.
+
+Theorem C02_troughs_are_first_minima_of_closed_halfwaves : forall pos sigp peaks troughs x,
+  raw_extrema pos sigp = Ok (peaks, troughs) -> length sigp = length pos ->
+  Forall (fun v => finite v = true) sigp ->
+  (In x troughs <-> exists a b, closed_halfwave pos false a b /\ first_argmin sigp a b x).
+Proof. exact raw_troughs_iff. Qed.
+Print Assumptions C02_troughs_are_first_minima_of_closed_halfwaves.
+
+(* first occurrence wins, ties included *)
+Theorem C02_argmax_is_first_maximum : forall l k, Forall (fun v => finite v = true) l ->
+  argmax_first l = Some k ->
+  k < length l /\ (forall j, j < length l -> (nth k l 0 <? nth j l 0)%float = false)
+              /\ (forall j, j < k -> (nth j l 0 <? nth k l 0)%float = true).
+Proof. exact argmax_first_spec. Qed.
+Print Assumptions C02_argmax_is_first_maximum.
+
+(* peaks and troughs are each strictly increasing and strictly alternate in time *)
+Theorem C02_extrema_alternate : forall pos sigp peaks troughs,
+  raw_extrema pos sigp = Ok (peaks, troughs) -> length sigp = length pos ->
+  StronglySorted lt peaks /\ StronglySorted lt troughs /\
+  exists m : list (nat * bool), wf_ev m /\
+    peaks = map fst (filter snd m) /\ troughs = map fst (filter (fun e => negb (snd e)) m).
+Proof. exact raw_extrema_alternate. Qed.
+Print Assumptions C02_extrema_alternate.
+
+(* the raw search succeeds whenever there is at least one crossing of each direction, and the
+   only failure is the degenerate "no oscillation" input *)
+Theorem C02_total_unless_no_crossing : forall pos sigp, length sigp = length pos ->
+  rises_of (events 0 pos) <> [] -> decays_of (events 0 pos) <> [] -> exists r, raw_extrema pos sigp = Ok r.
+Proof. exact raw_extrema_total. Qed.
+Print Assumptions C02_total_unless_no_crossing.
+
+(* boundary: an extremum is reported iff boundary < index < len - boundary (indices un-padded) *)
+Theorem C02_boundary_filter : forall padn n b xs z, In z (unpad_filter padn n b xs) <->
+  exists x, In x xs /\ z = (Z.of_nat x - Z.of_nat padn)%Z /\ (b < z < n - b)%Z.
+Proof. exact unpad_filter_In. Qed.
+Print Assumptions C02_boundary_filter.
+
+(* first_extrema = 'peak': p0 < t0 < p1 < t1 < ... with equally many of each, all beyond the boundary,
+   and nothing is invented (all come from the boundary-filtered raw extrema) *)
+Theorem C02_first_extrema_peak : forall x peaks troughs,
+  find_extrema x = Ok (peaks, troughs) -> x_first x = FPeak ->
+  length (x_raw x) + 2 * x_padn x = length (x_pos x) ->
+  interleaved peaks troughs /\
+  (forall z, In z peaks \/ In z troughs ->
+             (x_boundary x < z < Z.of_nat (length (x_raw x)) - x_boundary x)%Z) /\
+  exists pk tr, raw_extrema (x_pos x) (pad (x_padn x) (x_raw x)) = Ok (pk, tr) /\
+    incl peaks (unpad_filter (x_padn x) (Z.of_nat (length (x_raw x))) (x_boundary x) pk) /\
+    incl troughs (unpad_filter (x_padn x) (Z.of_nat (length (x_raw x))) (x_boundary x) tr).
+Proof. exact find_extrema_peak_first. Qed.
+Print Assumptions C02_first_extrema_peak.
+
+Theorem C02_first_extrema_trough : forall x peaks troughs,
+  find_extrema x = Ok (peaks, troughs) -> x_first x = FTrough ->
+  length (x_raw x) + 2 * x_padn x = length (x_pos x) ->
+  interleaved troughs peaks /\
+  (forall z, In z peaks \/ In z troughs ->
+             (x_boundary x < z < Z.of_nat (length (x_raw x)) - x_boundary x)%Z) /\
+  exists pk tr, raw_extrema (x_pos x) (pad (x_padn x) (x_raw x)) = Ok (pk, tr) /\
+    incl peaks (unpad_filter (x_padn x) (Z.of_nat (length (x_raw x))) (x_boundary x) pk) /\
+    incl troughs (unpad_filter (x_padn x) (Z.of_nat (length (x_raw x))) (x_boundary x) tr).
+Proof. exact find_extrema_trough_first. Qed.
+Print Assumptions C02_first_extrema_trough.
+
+(* first_extrema = None: nothing is removed beyond the boundary filter; invalid value: ValueError *)
+Theorem C02_first_extrema_none : forall x pk tr,
+  raw_extrema (x_pos x) (pad (x_padn x) (x_raw x)) = Ok (pk, tr) -> x_first x = FNone ->
+  find_extrema x = Ok (unpad_filter (x_padn x) (Z.of_nat (length (x_raw x))) (x_boundary x) pk,
+                       unpad_filter (x_padn x) (Z.of_nat (length (x_raw x))) (x_boundary x) tr).
+Proof. exact find_extrema_none. Qed.
+Print Assumptions C02_first_extrema_none.
+
+Theorem C02_first_extrema_invalid : forall x pk tr,
+  raw_extrema (x_pos x) (pad (x_padn x) (x_raw x)) = Ok (pk, tr) -> x_first x = FInvalid ->
+  find_extrema x = Err EValue.
+Proof. exact find_extrema_invalid. Qed.
+Print Assumptions C02_first_extrema_invalid.
+
+(* when trimming fails: exactly when no peak, no trough, or a single trough before the first peak survive *)
+Theorem C02_trimming_failure : forall x pk tr,
+  raw_extrema (x_pos x) (pad (x_padn x) (x_raw x)) = Ok (pk, tr) -> x_first x = FPeak ->
+  let P := unpad_filter (x_padn x) (Z.of_nat (length (x_raw x))) (x_boundary x) pk in
+  let T := unpad_filter (x_padn x) (Z.of_nat (length (x_raw x))) (x_boundary x) tr in
+  (find_extrema x = Err EIndex <-> P = [] \/ T = [] \/ exists t, T = [t] /\ (t < headZ P)%Z) /\
+  (forall e, find_extrema x = Err e -> e = EIndex).
+Proof. exact find_extrema_err_index. Qed.
+Print Assumptions C02_trimming_failure.
